@@ -1489,6 +1489,9 @@ func lockPairObligations(p *Program, a *LockAnalysis) []Obligation {
 			if isTransportSend(cc) {
 				what = "Transport." + cc.Method.Name()
 				why = "an unbounded remote call (gRPC on context.Background())"
+				if cc.Method.Name() == "Shutdown" {
+					why = "Shutdown waits for this node's outgoing RPCs (they hold the transport lock until the peer's handler answers) and for incoming handlers that need the node mutex: two nodes stopped together wait for each other for ever, and it"
+				}
 				meth := cc.Method
 				same = func(x ssa.Instruction) bool {
 					c2, ok := x.(ssa.CallInstruction)
@@ -1597,7 +1600,7 @@ func ruleLockPair() *Rule {
 		Text: "For each of Raft.mu, transport.mu, connectionManager.mu and every function that operates it (directly or through callees): every path from a Lock reaches an Unlock " +
 			"(explicit or deferred) before the function returns and a function returns with the mutex in the state it was entered with; no Lock while held (also not by calling a " +
 			"locking function with the mutex held); no Unlock while not held; every (*sync.Cond).Wait is made with the mutex held on a cond created by sync.NewCond(&x.mu); " +
-			"no Transport.Send* call and no (*sync.WaitGroup).Wait with the node mutex held.",
+			"no Transport.Send* / Transport.Shutdown call and no (*sync.WaitGroup).Wait with the node mutex held.",
 		Floor: 30,
 		Run: func(p *Program) []Obligation {
 			var out []Obligation
